@@ -15,6 +15,19 @@ from .core import HarnessError, Recorder, Violation
 
 
 def _task(args):
+    cov_dir = os.environ.get("VERIF_COV_DIR")
+    if cov_dir:
+        from . import cov
+
+        cov.start(core.TEMPEST_SRC)
+        try:
+            return _task_inner(args)
+        finally:
+            cov.dump(cov_dir)
+    return _task_inner(args)
+
+
+def _task_inner(args):
     kind, pid, tier, seed, cname, shard, n = args
     mod = importlib.import_module(f"props.{pid.lower()}")
     check = {c.name: c for c in mod.CHECKS}[cname]
